@@ -46,7 +46,8 @@ PrecedenceOK(cli, tc, doc, fmt, eff) ==
 \* same document has configured - and what the shell state it leaves behind holds for that variable - does not change it
 \* ("environment: a set of environment variable names and values that will be explicitly set for the test").  Observed end
 \* to end only (the test case under test is the second of its document; the first one runs with the document defaults,
-\* or with another inline value for every variable in effect): "skip" = not realised, "ok", "fail".
+\* or with another inline value for every variable in effect; and: the document under test is the second document of the
+\* invocation, the first one has other document defaults): "skip" = not realised, "ok", "fail".
 NeighbourIndependent(observed) == observed \in {"skip", "ok"}
 
 \* lists: command line prepends come first, command line appends last
